@@ -1,33 +1,33 @@
 package main
 
 var serverStubs = map[string]string{
-	"(net/http.Header).Get":                               "verifStubHeaderGet",
-	"(net/http.Header).Set":                               "verifStubHeaderSet",
-	"net/http.Error":                                      "verifStubHTTPError",
-	"(*net/http.Request).Context":                         "verifStubReqContext",
-	"net/netip.ParseAddrPort":                             "verifStubParseAddrPort",
-	"(net/netip.AddrPort).Addr":                           "verifStubAddrOf",
-	"tailscale.com/tailcfg.UnmarshalCapJSON":              "verifStubUnmarshalCap",
-	"(*github.com/tailscale/setec/db.DB).List":            "verifDBList",
-	"(*github.com/tailscale/setec/db.DB).Info":            "verifDBInfoM",
-	"(*github.com/tailscale/setec/db.DB).Get":             "verifDBGet",
-	"(*github.com/tailscale/setec/db.DB).GetConditional":  "verifDBGetConditional",
-	"(*github.com/tailscale/setec/db.DB).GetVersion":      "verifDBGetVersion",
-	"(*github.com/tailscale/setec/db.DB).Put":             "verifDBPut",
-	"(*github.com/tailscale/setec/db.DB).Activate":        "verifDBActivate",
-	"(*github.com/tailscale/setec/db.DB).DeleteVersion":   "verifDBDeleteVersion",
-	"(*github.com/tailscale/setec/db.DB).Delete":          "verifDBDelete",
-	"(*github.com/tailscale/setec/db.DB).WriteGen":        "verifStubWriteGen",
-	"(*github.com/tailscale/setec/db.DB).Path":            "verifStubDBPath",
-	"os.ReadFile":                                         "verifStubReadFileBackup",
-	"bytes.NewReader":                                     "verifStubBytesNewReader",
+	"(net/http.Header).Get":                              "verifStubHeaderGet",
+	"(net/http.Header).Set":                              "verifStubHeaderSet",
+	"net/http.Error":                                     "verifStubHTTPError",
+	"(*net/http.Request).Context":                        "verifStubReqContext",
+	"net/netip.ParseAddrPort":                            "verifStubParseAddrPort",
+	"(net/netip.AddrPort).Addr":                          "verifStubAddrOf",
+	"tailscale.com/tailcfg.UnmarshalCapJSON":             "verifStubUnmarshalCap",
+	"(*github.com/tailscale/setec/db.DB).List":           "verifDBList",
+	"(*github.com/tailscale/setec/db.DB).Info":           "verifDBInfoM",
+	"(*github.com/tailscale/setec/db.DB).Get":            "verifDBGet",
+	"(*github.com/tailscale/setec/db.DB).GetConditional": "verifDBGetConditional",
+	"(*github.com/tailscale/setec/db.DB).GetVersion":     "verifDBGetVersion",
+	"(*github.com/tailscale/setec/db.DB).Put":            "verifDBPut",
+	"(*github.com/tailscale/setec/db.DB).Activate":       "verifDBActivate",
+	"(*github.com/tailscale/setec/db.DB).DeleteVersion":  "verifDBDeleteVersion",
+	"(*github.com/tailscale/setec/db.DB).Delete":         "verifDBDelete",
+	"(*github.com/tailscale/setec/db.DB).WriteGen":       "verifStubWriteGen",
+	"(*github.com/tailscale/setec/db.DB).Path":           "verifStubDBPath",
+	"os.ReadFile":     "verifStubReadFileBackup",
+	"bytes.NewReader": "verifStubBytesNewReader",
 	"(*github.com/aws/aws-sdk-go-v2/service/s3.Client).PutObject": "verifStubPutObject",
-	"github.com/tailscale/setec/server.backupKey":         "verifStubBackupKey",
-	"context.WithTimeout":                                 "verifStubWithTimeout",
-	"time.After":                                          "verifStubTimeAfter",
-	"time.NewTicker":                                      "verifStubNewTicker",
-	"(*time.Ticker).Stop":                                 "verifStubTickerStop",
-	"context.TODO":                                        "engine:nilctx",
+	"github.com/tailscale/setec/server.backupKey":                 "verifStubBackupKey",
+	"context.WithTimeout":                                         "verifStubWithTimeout",
+	"time.After":                                                  "verifStubTimeAfter",
+	"time.NewTicker":                                              "verifStubNewTicker",
+	"(*time.Ticker).Stop":                                         "verifStubTickerStop",
+	"context.TODO":                                                "engine:nilctx",
 }
 
 func init() {
